@@ -1,1 +1,21 @@
-fn main() { eprintln!("not implemented"); std::process::exit(2); }
+//! p-reader: bounded-exhaustive checks for
+//!   C15 — the message reader is total, atomic and faithful
+//!   C18 — RDATA reading, validation and writing are mutually consistent
+//!   C19 — RDATA equality is an equivalence and RRsets deduplicate by it
+//!
+//! Usage: p-reader <C15|C18|C19> <quick|thorough> [--replay FILE]
+
+mod c15;
+mod c18;
+mod c19;
+mod gen;
+mod refmodel;
+
+fn main() {
+    let ctx = qvlib::Ctx::from_args(&["C15", "C18", "C19"]);
+    match ctx.id.as_str() {
+        "C15" => c15::run(ctx),
+        "C18" => c18::run(ctx),
+        _ => c19::run(ctx),
+    }
+}
